@@ -90,9 +90,10 @@ def align_oracle(tier, seed):
     for n in ((16, 21) if tier == "quick" else (12, 16, 21, 32, 45)):
         x = np.arange(n, dtype=float)
         base0 = np.exp(-0.5 * ((x - n // 2) / 1.3) ** 2)
-        for pos, cplx in ((0, False), (1, False), (0, True), (1, True)):
-            # real peaks and phased (complex) peaks: the alignment may only roll a trace, never change its values
-            base = base0 * np.exp(0.7j) if cplx else base0
+        for pos, cplx in ((0, False), (1, False), (0, True), (1, True), (0, "neg"), (1, 2.5), (0, -2.0)):
+            # real peaks, inverted real peaks, and complex peaks of ANY phase (mild, beyond +-90 degrees): the alignment may only
+            # roll a trace, never change its values, and it goes by the magnitude of the peak
+            base = (-base0 if cplx == "neg" else base0 * np.exp(1j * (0.7 if cplx is True else float(cplx)))) if cplx else base0
             # the lag between any trace and the reference (last) trace is at most 2R
             for R, label in ((max(1, n // 8), "lag<=n/4"), (n // 3, "lag>n/2")):
                 shifts = list(range(-R, R + 1))
